@@ -1,4 +1,5 @@
 import PilotaModel.Build.Graph
+import PilotaModel.Build.Derive
 import PilotaModel.Base.Sexp
 /-  Line-protocol verb for pilota-build's boxing decision (C14):
     `boxed (m p1 o p3) (u o p0) (n p2) …` — one list per item in declaration order: kind (m message, u union, n newtype)
@@ -27,6 +28,38 @@ def answer (items : List Sexp) : Option String := do
     let g ← (items.drop 1).mapM parseItem
     if saturated g then
       pure (" ".intercalate ((boxedFields g).map fun p => s!"{p.1}.{p.2}"))
+    else pure "unsaturated"
+  | _ => none
+
+end Driver.Graph
+
+namespace Driver.Graph
+open Pilota Pilota.Build
+
+/-- `derives (p1 ms o) (fl o) …` — one list per item in declaration order: the field types as the derive predicate sees them
+after stripping `Vec` layers (`pK` path to item K, `ms` hash map / set, `fl` float, `o` other).
+Answer: `po=<items deriving PartialOrd> h=<items deriving Hash, Eq, Ord>`, or `unsaturated`. -/
+def parseDTy (s : String) : Option DTy :=
+  if s == "o" then some .leaf
+  else if s == "ms" then some .mapset
+  else if s == "fl" then some .float
+  else if s.startsWith "p" then (s.drop 1).toNat?.map DTy.path
+  else none
+
+def parseDItem : Sexp → Option DItem
+  | .list fs => do
+    let fields ← fs.mapM fun f => f.asAtom >>= parseDTy
+    pure { fields }
+  | _ => none
+
+def answerD (items : List Sexp) : Option String := do
+  let verb ← items.head? >>= Sexp.asAtom
+  match verb with
+  | "derives" =>
+    let g ← (items.drop 1).mapM parseDItem
+    if dsaturated g then
+      let fmt := fun (l : List Nat) => if l.isEmpty then "-" else ",".intercalate (l.map toString)
+      pure s!"po={fmt (derivingItems g false)} h={fmt (derivingItems g true)}"
     else pure "unsaturated"
   | _ => none
 
